@@ -30,7 +30,10 @@ VARIANTS = {
     # ---- R3: async yield from ------------------------------------------------------------------
     'agen-send-dropped': seeded(T525, "                    if __beartype_agen_send_pith is None:", "                    if True:", 'C08.R3',
                                 'values sent with asend() never reach the wrapped generator'),
-    'agen-asend-always': seeded(T525, "                    if __beartype_agen_send_pith is None:", "                    if __beartype_agen_send_pith is NotImplemented:", 'C08.R3'),
+    'n-agen-asend-always': neutral(T525, "                    if __beartype_agen_send_pith is None:", "                    if __beartype_agen_send_pith is NotImplemented:",
+                                   'inner.asend(None) is anext(inner): always forwarding with asend() is behaviour-preserving (the former shape rule reported it)'),
+    'agen-falsy-sent-value-dropped': seeded(T525, "                    if __beartype_agen_send_pith is None:", "                    if not __beartype_agen_send_pith:", 'C08.R3',
+                                            'asend(0) arrives as anext()'),
     'agen-throw-swallowed': seeded(T525, "                        await {VAR_NAME_PITH_ROOT}.athrow(\n                            __beartype_agen_exception))",
                                    "                        await anext({VAR_NAME_PITH_ROOT}))", 'C08.R3',
                                    'athrow() into the wrapper is not forwarded'),
